@@ -812,7 +812,9 @@ class Interp:
             if name == "__class__":
                 return AClass(v.cls)
             if name == "__dict__":
-                return ADict(dict(v.attrs), tag="__dict__")
+                d = ADict(tag="__dict__")
+                d.items = v.attrs          # a live view: updates through it change the object
+                return d
             m = v.cls.find_method(name)
             if m is not None:
                 if m.is_property:
@@ -830,6 +832,8 @@ class Interp:
                 return BoundBuiltin(v, name)
             self.raise_builtin("AttributeError", f"{v.cls.name} has no attribute {name}", node=node)
         if isinstance(v, AClass):
+            if name == "__new__" and v.cls.find_method("__new__") is None:
+                return lambda it_, args, kwargs, node_: AObj(args[0].cls if args and isinstance(args[0], AClass) else v.cls)
             m = v.cls.find_method(name)
             if m is not None:
                 if m.is_classmethod:
@@ -1059,6 +1063,10 @@ class Interp:
             return Unknown(f"{fn.tag}()")
         if callable(fn) and not isinstance(fn, AbsVal):
             return fn(self, args, kwargs, node)
+        if isinstance(fn, AbsVal):
+            r = fn.call_method(self, "__call__", args, kwargs)
+            if r is not NotImplemented:
+                return r
         raise Unsupported(f"call of {fn!r}")
 
     def construct(self, cls: ClassInfo, args, kwargs, node=None):
@@ -1198,6 +1206,12 @@ class Interp:
         elif isinstance(t, ast.Subscript):
             base = self.ev(t.value)
             if isinstance(t.slice, ast.Slice):
+                lo = self.ev(t.slice.lower) if t.slice.lower is not None else None
+                hi = self.ev(t.slice.upper) if t.slice.upper is not None else None
+                if isinstance(base, AList) and t.slice.step is None and all(x is None or (isinstance(x, int) and not isinstance(x, bool)) for x in (lo, hi)):
+                    base.items[lo:hi] = self.iterate(v)
+                    self.effect("store-slice", base, lo, hi)
+                    return
                 raise Unsupported("slice assignment")
             idx = self.ev(t.slice)
             self.set_item(base, idx, v, t)
@@ -1695,7 +1709,7 @@ def call_builtin(it: Interp, name, args, kwargs, node=None):
                     src = r
             if getattr(src, "lazy", False):
                 return LazyEnum(src, start)
-        return AList([(i + start, v) for i, v in enumerate(it.iterate(src))])
+        return AIter([(i + start, v) for i, v in enumerate(it.iterate(src))])
     if name == "itertools.chain":
         out = []
         for a in args:
@@ -1718,7 +1732,7 @@ def call_builtin(it: Interp, name, args, kwargs, node=None):
         return acc
     if name == "zip":
         seqs = [it.iterate(a) for a in args]
-        return AList([tuple(t) for t in zip(*seqs)])
+        return AIter([tuple(t) for t in zip(*seqs)])
     if name == "range":
         if all(isinstance(a, int) for a in args):
             return AList(list(range(*args)))
@@ -1944,6 +1958,9 @@ def call_builtin_type(it: Interp, name, args, kwargs, node=None):
         if isinstance(v, bool) or isinstance(v, int):
             return int(v)
         if isinstance(v, str):
+            if len(v.strip()) > 4300 and len(args) < 2:
+                # CPython >= 3.11 (sys.int_info.default_max_str_digits): decimal strings beyond 4300 digits are refused
+                it.raise_builtin("ValueError", "Exceeds the limit (4300 digits) for integer string conversion", node=node)
             try:
                 return int(v)
             except ValueError:
@@ -1970,6 +1987,18 @@ def call_builtin_type(it: Interp, name, args, kwargs, node=None):
 
 
 def call_builtin_method(it: Interp, recv, name, args, kwargs, node=None):
+    if isinstance(recv, BuiltinType) and recv.name == "dict" and name == "fromkeys":
+        d = ADict()
+        for k in it.iterate(args[0]):
+            hk = it.hashable(k)
+            found = None
+            for kk in d.items:
+                if it.equal(kk, hk):
+                    found = kk
+                    break
+            if found is None:
+                d.items[hk] = args[1] if len(args) > 1 else None
+        return d
     if it.hooks is not None and hasattr(it.hooks, "method"):
         r = it.hooks.method(it, recv, name, args, kwargs, node)
         if r is not NotImplemented:
@@ -2168,6 +2197,26 @@ def call_builtin_method(it: Interp, recv, name, args, kwargs, node=None):
             return None
         if name == "copy":
             return ASet(list(S))
+        if name == "clear":
+            S.clear()
+            it.effect("clear", recv)
+            return None
+        if name == "update":
+            for a in args:
+                for x in it.iterate(a):
+                    if not any(it.equal(x, y) for y in S):
+                        S.append(x)
+            return None
+        if name == "difference":
+            other = [y for a in args for y in it.iterate(a)]
+            return ASet([x for x in S if not any(it.equal(x, y) for y in other)])
+        if name == "issubset":
+            other = it.iterate(args[0])
+            return all(any(it.equal(x, y) for y in other) for x in S)
+        if name == "pop":
+            if not S:
+                it.raise_builtin("KeyError", "pop from an empty set", node=node)
+            return S.pop()
         it.raise_builtin("AttributeError", f"'set' object has no attribute '{name}'", node=node)
     if isinstance(recv, ExcVal):
         if name == "with_traceback":
